@@ -308,7 +308,19 @@ func (c *pathCtx) assert(label string, cond *Term, pos string) {
 			return
 		}
 		if !c.replaying() {
-			c.asserts = append(c.asserts, AssertRecord{Label: label, Status: "violated", Model: c.modelOf(nil), Pos: pos})
+			// concretely false: a violation if the path is feasible at all (after a
+			// feasibility query answered unknown the path may be infeasible)
+			rec := AssertRecord{Label: label, Pos: pos}
+			switch c.sess.Check(TrueT, c.assertMs()) {
+			case Unsat:
+				rec.Status = "discharged" // vacuous: no input reaches this point
+			case Sat:
+				rec.Status = "violated"
+				rec.Model = c.modelOf(nil)
+			default:
+				rec.Status = "inconclusive"
+			}
+			c.asserts = append(c.asserts, rec)
 		}
 		return
 	}
